@@ -41,6 +41,8 @@ type Action struct {
 	Enabled  func(m *model.State, aux map[string]int) bool
 	// Count: aux counter incremented when the action is taken (for caps like "at most one governance change")
 	Count string
+	// PrefixOnly letters build the scenario's initial state; the search does not use them
+	PrefixOnly bool
 }
 
 // TxObs is what was observed and predicted for one transaction.
